@@ -15,7 +15,7 @@ def gen_scenarios(ctx, n, depth=24, seed=None, cfg='OciRegistryGen.cfg'):
     return scen
 
 
-def cover_scenarios(ctx, cfg, sample=None):
+def cover_scenarios(ctx, cfg, sample=None, probe=None):
     """Transition coverage of the reference model (OciRegistryCover): one history per (state, operation)
     pair of the small universe; `sample` draws a seeded subset."""
     import random
@@ -26,6 +26,10 @@ def cover_scenarios(ctx, cfg, sample=None):
     if sample and sample < len(scen):
         rnd = random.Random(ctx.seed)
         scen = rnd.sample(scen, sample)
+    if probe:
+        # the abstract state reached may hide a difference inside the implementation (a stale flag):
+        # every covered transition is followed by calls that observe the item it touched
+        scen = [dict(s, ops=s['ops'] + probe) for s in scen]
     return scen
 
 
